@@ -115,6 +115,17 @@ PHI = [0.6180339887, 0.4142135623, 0.7320508075, 0.2360679775, 0.6457513110, 0.3
        0.8740078740, 0.1547005383, 0.5440037453, 0.2915026221, 0.9442719099, 0.0385164807, 0.7015621187, 0.3851648071]
 
 
+import os as _os
+try:
+    _SEED_SHIFT = 5 * (int(_os.environ.get("VERIF_SEED", "1") or 1) - 1)
+except ValueError:
+    _SEED_SHIFT = 0
+
+
 def generic(draw, k, lo=0.0, hi=1.0):
+    """u + fixed offset (mod 1).  The offset also depends on VERIF_SEED, so that the all-minimal first draw of an enumerated
+    item (the only draw in a quick tier) differs between seeds; the drawn value is stored in the descriptor, so replay
+    does not depend on the environment."""
     u = draw(st.floats(min_value=0.0, max_value=1.0, allow_nan=False, width=64))
+    k = k + _SEED_SHIFT
     return lo + (hi - lo) * ((u + PHI[k % len(PHI)] * (1 + (k // len(PHI)) * 0.137)) % 1.0)
